@@ -79,7 +79,10 @@ func vSpell(holder, target, frag string, alt int) string {
 	if (holder == vUFar) != (target == vUFar) && !strings.HasPrefix(vUFar, "file:") {
 		return target + "#" + frag // another authority: only the absolute form exists
 	}
-	return rel[holder][target] + "#" + frag
+	if r, ok := rel[holder][target]; ok {
+		return r + "#" + frag
+	}
+	return target + "#" + frag // a location outside the table (e.g. with a query): absolute form
 }
 
 type vTarget struct {
